@@ -13,6 +13,7 @@ READ_PREFIX = (re.compile(r'\.read\(&mut ([A-Za-z_][A-Za-z0-9_]*)\[\.\.([A-Za-z_
 PARTS = [Prelude('head.rs'), Raw('global size_of usize == 8;   // A-64BIT: the checks assume a 64-bit target\n'),
          Prelude('serspec.rs')] + io_head() + [
     Prelude('read.rs'),
+    Prelude('alloc.rs'),
     Raw('''
 /// R4: io::Error::new(kind, msg) / io::ErrorKind - error construction has no effect on control flow
 pub mod io {
@@ -38,7 +39,7 @@ pub mod io {
 // with NULs to a multiple of 4 bytes.
 pub open spec fn padlen(len: int) -> int { (4 - len % 4) % 4 }
 '''),
-    Fn(PAY, 'pad', subs=[ret()],
+    Fn(PAY, 'pad', subs=[ret()] + ALLOC_RULES,
        spec='''    ensures
         match r {
             Some(v) => v@ == zeros(padlen(len as int)) && padlen(len as int) > 0,
@@ -46,7 +47,57 @@ pub open spec fn padlen(len: int) -> int { (4 - len % 4) % 4 }
         },''',
        after=[('Some(vec![0u8; repeat])', '')],
        before=[('let overhang', '')]),
-    Raw('impl<R: VReadExt> Reader<R> {\n'),
+    Raw('''
+/// R5: FileEntry is opaque metadata here; only `size` is used by the entry reader
+pub struct FileEntry { pub size: usize, pub id: u64 }
+/// R24: `match magic.as_slice() { MAGIC_NUMBER_NEWASCII | MAGIC_NUMBER_NEWCRC => .., STRIPPED_.. => .., _ => .. }`
+/// matches a byte slice against constant byte strings; modelled as a deterministic classifier.
+#[derive(PartialEq, Eq)]
+pub enum MagicKind { Newc, Crc, Stripped, Other }
+pub uninterp spec fn magic_kind_spec(s: Seq<u8>) -> MagicKind;
+#[verifier::external_body]
+pub fn magic_kind(s: &[u8]) -> (r: MagicKind) ensures r == magic_kind_spec(s@) { unimplemented!() }
+/// leaf: reads one 8-digit hex field (from_utf8 + from_str_radix: &str code, K:k_read_hex_u32 where it
+/// finishes); any u32 may come back, exactly 8 bytes are consumed on Ok.
+#[verifier::external_body]
+pub fn read_hex_u32<R: VReadExt>(reader: &mut R) -> (r: io::Result<u32>)
+    ensures r is Ok ==> old(reader).remaining().len() >= 8
+        && final(reader).remaining() == old(reader).remaining().subrange(8, old(reader).remaining().len() as int),
+{ unimplemented!() }
+#[verifier::external_body]
+pub fn last_is_nul(v: &Vec<u8>) -> (r: bool) ensures r == (v@.len() > 0 && v@[v@.len() - 1] == 0) { unimplemented!() }
+/// R20': String::from_utf8(bytes).map_err(..)
+#[verifier::external_body]
+pub fn string_from_utf8(v: Vec<u8>) -> (r: io::Result<String>) { unimplemented!() }
+/// R17: slice::get(i)
+#[verifier::external_body]
+pub fn slice_get(s: &[FileEntry], i: usize) -> (r: Option<&FileEntry>)
+    ensures r is Some <==> i < s@.len(), r is Some ==> *r->0 == s@[i as int],
+{ s.get(i) }
+impl<R: VReadExt> Reader<R> {
+'''),
+    Fn(PAY, 'new', impl='impl<R: Read> Reader<R>',
+       subs=[ret(),
+             ('match magic.as_slice() {\n            MAGIC_NUMBER_NEWASCII | MAGIC_NUMBER_NEWCRC => {', 'match magic_kind(magic.as_slice()) {\n            MagicKind::Newc | MagicKind::Crc => {', 1, 'R24-magic-match'),
+             ('match magic.as_slice() {\n                    MAGIC_NUMBER_NEWASCII => CpioEntryType::Newc,\n                    MAGIC_NUMBER_NEWCRC => CpioEntryType::Crc,', 'match magic_kind(magic.as_slice()) {\n                    MagicKind::Newc => CpioEntryType::Newc,\n                    MagicKind::Crc => CpioEntryType::Crc,', 1, 'R24-magic-match'),
+             ('STRIPPED_CPIO_MAGIC_NUMBER => {', 'MagicKind::Stripped => {', 1, 'R24-magic-match'),
+             ('unreachable!("can\'t happen")', 'unreached()', None, 'R6-unreachable->proof obligation'),
+             ('name_bytes.last() != Some(&0)', '!last_is_nul(&name_bytes)', None, 'R11-Option<&u8>-comparison'),
+             ('name_bytes.last() == Some(&0)', 'last_is_nul(&name_bytes)', None, 'R11-Option<&u8>-comparison'),
+             (re.compile(r'String::from_utf8\(name_bytes\)\.map_err\(\|_\| \{.*?\}\)\?', re.S), 'string_from_utf8(name_bytes)?', None, "R20'-String::from_utf8"),
+             ('file_entries.get(idx as usize)', 'slice_get(file_entries, idx as usize)', None, 'R17-slice-get'),
+             ] + IOERR_RULES + ALLOC_RULES,
+       loops={0: '''                    invariant name_bytes@.len() <= 4096,
+                    decreases name_bytes@.len(),
+'''},
+       spec='''    ensures
+        // C04: hostile cpio headers - no panic, bounded allocation (name buffer <= 4096), the
+        // stripped file index is bounds-checked; C07: the size the reader will hand out
+        r is Ok ==> r->Ok_0.bytes_read == 0,
+        r is Ok ==> match r->Ok_0.entry {
+            RpmPayloadEntry::Cpio(c) => r->Ok_0.file_size == c.file_size,
+            RpmPayloadEntry::Stripped(idx) => idx < file_entries@.len() && r->Ok_0.file_size == file_entries@[idx as int].size,
+        },'''),
     Fn(PAY, 'finish', impl='impl<R: Read> Reader<R>',
        subs=[ret(),
              ('io::copy(&mut self.inner.by_ref().take(remaining), &mut io::sink())?;', 'self.inner.skip_n(remaining)?;', None, "R16'-io::copy(take(n), sink)"),
@@ -170,6 +221,7 @@ pub fn canary_c07_write<W: VWrite>(w: &mut Writer<W>, buf: &[u8])
 
 OBLIGATIONS = {
     'pad': ['C07', 'C09', 'C04'],
+    'Reader::new': ['C07', 'C04'],
     'Reader::finish': ['C07', 'C04'],
     'Reader::read': ['C07', 'C04'],
     'Writer::try_write_header': ['C07', 'C09'],
